@@ -1,6 +1,6 @@
 """Sidecar contracts for /repo/bisturi (never edits the repository)."""
 
-ALL_MODULES = ['c_fragments', 'c_structural', 'c_field', 'c_packet', 'c_descriptor', 'c_purity', 'c_deferred']
+ALL_MODULES = ['c_fragments', 'c_structural', 'c_field', 'c_packet', 'c_descriptor', 'c_purity', 'c_deferred', 'c_roundtrip']
 
 _COMMON_TRUST = [
     'builtin/library contracts of DESIGN.md 2.5-2.6 (assumed; cross-checked against CPython by pyvc/crosscheck.py, bounded)',
@@ -27,7 +27,50 @@ _FRAME_FUNCS = ['field:Int._unpack_fixed_and_primitive_size', 'field:Int._unpack
                 'packet:Packet.unpack', 'packet:Packet.pack', 'packet:Packet.__eq__', 'packet:Packet.__repr__',
                 'descriptor:Auto.__get__', 'descriptor:Auto.sync_before_pack']
 
+_RT1 = ['ghost_clients:rt1_int_prim', 'ghost_clients:rt1_int_any', 'ghost_clients:rt1_data_fixed', 'ghost_clients:rt1_data_field',
+        'ghost_clients:rt1_data_callable', 'ghost_clients:rt1_data_marker', 'ghost_clients:rt1_data_regex',
+        'ghost_clients:rt1_bits_member', 'ghost_clients:rt1_move']
+_RT2 = ['ghost_clients:rt2_int_prim', 'ghost_clients:rt2_int_any', 'ghost_clients:rt2_data_fixed']
+_LOCAL = ['ghost_clients:loc_int_prim', 'ghost_clients:loc_int_any', 'ghost_clients:loc_data_fixed']
+_LEAF_PAIRS = ['field:Int._unpack_fixed_and_primitive_size', 'field:Int._unpack_fixed_size',
+               'field:Int._pack_fixed_and_primitive_size', 'field:Int._pack_fixed_size',
+               'field:Data._unpack_fixed_size', 'field:Data._unpack_variable_size_field',
+               'field:Data._unpack_variable_size_callable', 'field:Data._unpack_with_string_marker',
+               'field:Data._unpack_with_regexp_marker', 'field:Data.pack', 'field:Bits.unpack', 'field:Bits.pack',
+               'structural_fields:Move.unpack', 'structural_fields:Move.pack',
+               'structural_fields:Sequence.unpack', 'structural_fields:Sequence.pack',
+               'structural_fields:Optional.unpack', 'structural_fields:Optional.pack',
+               'field:Ref._unpack_referencing_a_packet', 'field:Ref._pack_referencing_a_packet']
+_COMPOSITION_NOTE = ('composition over the field table (each field starts where the previous one ended, values of earlier fields are not '
+                     'overwritten) is the induction argument of DESIGN.md section 3 over the abstract field contract; it is NOT mechanised in this '
+                     'round: what is proved are the per-kind lemmas over the contracts and the contracts of the drivers and structural fields')
+
 PROPERTIES = {
+    'C01': dict(
+        level='proof',
+        functions=_RT1 + _LEAF_PAIRS + ['fragments:Fragments.insert', 'fragments:Fragments.append', 'fragments:Fragments.tobytes',
+                                        'packet:Packet.pack_impl', 'packet:Packet.unpack_impl'],
+        lemmas=['C01.bits_identity', 'C07.pack_merge', 'C07.unpack_slice', 'C10.move_target_unique'],
+        trusted_base=_COMMON_TRUST + ['ghost clients (contracts/ghost_clients.py) only call repository functions through their contracts'],
+        assumptions=[_COMPOSITION_NOTE, 'exclusions exactly as in the statement: regex delimiter not kept in the value, consume_delimiter=False, embed=True',
+                     'callable positioning targets return the same value in both phases (role contract)'],
+    ),
+    'C02': dict(
+        level='proof',
+        functions=_RT2 + _LEAF_PAIRS + ['fragments:Fragments.insert', 'fragments:Fragments.append', 'fragments:Fragments.tobytes'],
+        trusted_base=_COMMON_TRUST + ['ghost clients only call repository functions through their contracts'],
+        assumptions=[_COMPOSITION_NOTE,
+                     '"consistent with the declaration" is read as: integers in range, fixed Data of exactly n bytes (delimited Data, sequences and optionals: contracts of C06/C08 only, no serialise-then-parse lemma yet)'],
+    ),
+    'C14': dict(
+        level='proof',
+        functions=_LOCAL + ['structural_fields:Move.unpack', 'field:Data._unpack_with_string_marker',
+                            'field:Data._unpack_with_regexp_marker', 'packet:Packet.unpack_impl'],
+        trusted_base=_COMMON_TRUST + ['ghost clients only call repository functions through their contracts'],
+        assumptions=[_COMPOSITION_NOTE,
+                     'delimited Data: locality follows from the search-window clauses of the C06 contract (first occurrence at or after the cursor); no separate embedded-parse lemma yet',
+                     'relative positioning: Move.unpack depends on offset and innermost-pkt-pos only (its contract); reference="begins" is excluded by the statement'],
+    ),
     'C03': dict(level='translation_validation', functions=[], special_driver='pyvc/check_c03.py'),
     'C09': dict(
         level='proof',
@@ -156,6 +199,19 @@ PROPERTIES = {
 }
 
 MANIFEST_TEXT = {
+    'C01': dict(
+        text='Proof, per field kind and without bound on inputs, of the round-trip lemma over the proved contracts: unpack followed by pack of the same field appends exactly the consumed bytes raw[offset:end] '
+             'at the cursor (Int both paths, Data constant/field/callable/bytes-delimited/regex-kept/read-to-end, a Bits member leaves the shared integer as parsed so the run is re-emitted); positioning moves the '
+             'cursor to the same position relative to the start of the parse and stores nothing (holes -> fill byte by C11); structural fields, drivers and the buffer satisfy their contracts (C08, C12, C11).',
+        note='The composition over an arbitrary field table is an induction argument over the abstract field contract, not mechanised (stated in the evidence). Known finding K1a: reference=\'begins\' with a non-zero start offset.'),
+    'C02': dict(
+        text='Proof, per leaf kind and without bound on values, of the serialise-then-parse lemma over the proved contracts: for a value that satisfies the declaration (integer in range, fixed byte string of exactly n bytes) '
+             'pack followed by unpack on any input carrying the emitted bytes yields the same value and ends exactly after them; the bytes emitted are the field\'s encoding appended at the cursor (C05/C06 contracts), placed by C10/C11.',
+        note='Composition over the field table is not mechanised; delimited Data, sequences, optionals and nested packets are covered by their C06/C08 contracts only.'),
+    'C14': dict(
+        text='Proof, per leaf kind and for arbitrary prefixes and suffixes, of the locality lemma over the proved contracts: parsing the field inside prefix ++ raw ++ suffix at |prefix| + offset yields the same value and an end offset '
+             'shifted by exactly |prefix| (Int both paths, fixed Data); relative positioning depends only on offset and innermost-packet position (Move contract); delimited fields search only at or after the cursor inside the window (C06 contract).',
+        note='Composition over the field table is not mechanised; no embedded-parse lemma for delimited Data yet (read-to-end and lengthening regex matches are excluded by the statement anyway).'),
     'C03': dict(
         text='Translation validation, unbounded over inputs and packet values, enumerated over declarations: for every declaration of the family and option set the real builder is run, '
              'and the generated pack_impl/unpack_impl (real, loop-free code) is proved equivalent to the real generic field loop unrolled over the same concrete field table: every pair of paths '
